@@ -57,6 +57,7 @@ func unb64(s string) []byte {
 
 var out *lib.Out
 var skipped = 0
+var inconclusive = 0
 var bigBudget = 10 // number of large-body pure cases still allowed (Coq term size)
 
 func repoDir() string {
@@ -533,7 +534,7 @@ var liveFailures = 0
 const maxLiveFailures = 2
 
 func run(in caseIn, name string) {
-	if liveFailures >= maxLiveFailures && (in.Kind == "http" || in.Kind == "live" || in.Kind == "livebig") {
+	if liveFailures >= maxLiveFailures && (in.Kind == "http" || in.Kind == "live" || in.Kind == "livebig" || in.Kind == "livetmo") {
 		skipped++
 		return
 	}
@@ -552,7 +553,7 @@ func run(in caseIn, name string) {
 		pureMpub(in, name)
 	case "http":
 		httpCase(in, name)
-	case "live":
+	case "live", "livetmo":
 		liveCase(in, name, false)
 	case "livebig":
 		liveCase(in, name, true)
@@ -566,6 +567,7 @@ func main() {
 	nhttp := flag.Int("http", 60, "number of HTTP publish cases")
 	nlive := flag.Int("live", 24, "number of live path cases")
 	nbig := flag.Int("livebig", 3, "number of large-body live path cases")
+	ntmo := flag.Int("livetmo", 2, "number of live path cases whose first requeue is the in-flight timeout")
 	big := flag.Int("big", 10, "number of large-body pure cases allowed")
 	seed := flag.Uint64("seed", 1, "seed")
 	outp := flag.String("out", "", "output jsonl")
@@ -636,7 +638,11 @@ func main() {
 			bk++
 		}
 	}
+	for k := 0; k < *ntmo; k++ {
+		run(caseIn{Kind: "livetmo", Seed: r.U64()}, fmt.Sprintf("livetmo-%d", k))
+	}
 	out.Stat("live_cases_skipped_after_failures", skipped)
+	out.Stat("timeout_cases_dropped_inconclusive", inconclusive)
 	out.Stat("feature_combinations_exercised", len(featSeen))
 	out.Stat("feature_combinations_total", featTotal)
 }
